@@ -122,6 +122,10 @@ type Config struct {
 	Disciplined bool
 	Bulk        bool // IDLE with a bulk time: responses are buffered and sent merged when the IDLE ends
 	Script      []Op // when set: run exactly these ops (corpus of scripted scenarios) instead of generating
+	// Observer: session 0 stays silent while the others act (long queues build up for it); now and then it has the
+	// queued updates delivered, runs ONE command that must not send EXPUNGE (SEARCH / FETCH / probe) and is then checked
+	// at quiescence. The others also "bounce" messages (move away and back: the message is put back under a new UID).
+	Observer bool
 }
 
 // Generate-and-run: the next op depends on what the sessions have been told so far.
@@ -472,6 +476,76 @@ func RunHistory(rng *common.Rng, cfg Config) (*Run, error) {
 	for step := 0; step < cfg.Steps; step++ {
 		s := rng.Pick(cfg.K)
 		m := mir[s]
+		if cfg.Observer && s == 0 && m.Selected && !w.Idle[0] {
+			switch y := rng.Pick(100); {
+			case y < 30:
+				if verifhook.Held(w.StateID[0]) > 0 {
+					if _, err := exec(Op{Kind: "deliver", S: 0}); err != nil {
+						return run, err
+					}
+				}
+			case y < 55:
+				for verifhook.Held(w.StateID[0]) > 0 {
+					if _, err := exec(Op{Kind: "deliver", S: 0}); err != nil {
+						return run, err
+					}
+				}
+				c := []string{"search", "probe", "fetchbody", "searchbad"}[rng.Pick(4)]
+				o := Op{Kind: "cmd", S: 0, Cmd: c}
+				if c == "fetchbody" {
+					if len(m.Cells) == 0 {
+						o.Cmd = "search"
+					} else {
+						o.Ps = []int{1 + rng.Pick(len(m.Cells))}
+					}
+				}
+				if _, err := exec(o); err != nil {
+					return run, err
+				}
+				run.Stats["observer-restricted-then-quiesce"]++
+				if err := quiesce(0); err != nil {
+					return run, err
+				}
+			}
+			continue
+		}
+		if cfg.Observer && s != 0 && m.Selected && !w.Idle[s] && len(m.Cells) > 0 && cfg.NMbox > 1 && rng.Chance(0.12) {
+			// bounce: move one message to another mailbox and back; it returns under a new UID
+			orig := m.Mb
+			other := (orig + 1 + rng.Pick(cfg.NMbox-1)) % cfg.NMbox
+			for verifhook.Held(w.StateID[s]) > 0 {
+				if _, err := exec(Op{Kind: "deliver", S: s}); err != nil {
+					return run, err
+				}
+			}
+			if _, err := exec(Op{Kind: "cmd", S: s, Cmd: "noop"}); err != nil {
+				return run, err
+			}
+			if len(mir[s].Cells) == 0 {
+				continue
+			}
+			if _, err := exec(Op{Kind: "cmd", S: s, Cmd: "move", Ps: []int{1 + rng.Pick(len(mir[s].Cells))}, Mb: other}); err != nil {
+				return run, err
+			}
+			if _, err := exec(Op{Kind: "cmd", S: s, Cmd: "select", Mb: other}); err != nil {
+				return run, err
+			}
+			if k := len(mir[s].Cells); k > 0 {
+				if _, err := exec(Op{Kind: "cmd", S: s, Cmd: "move", Ps: []int{k}, Mb: orig}); err != nil {
+					return run, err
+				}
+			}
+			if _, err := exec(Op{Kind: "cmd", S: s, Cmd: "select", Mb: orig}); err != nil {
+				return run, err
+			}
+			if k := len(mir[s].Cells); k > 0 && rng.Chance(0.6) {
+				if _, err := exec(Op{Kind: "cmd", S: s, Cmd: "store", Ps: []int{k}, FOp: "add", Flags: []int{3 + rng.Pick(2)}}); err != nil {
+					return run, err
+				}
+			}
+			run.Stats["bounce"]++
+			continue
+		}
 		if w.Idle[s] {
 			// an idling session can only be delivered to, or leave IDLE
 			if verifhook.Held(w.StateID[s]) > 0 && rng.Chance(0.6) {
